@@ -1,6 +1,9 @@
 """Loading and indexing of the fact file written by the mtfacts driver, plus generic
 utilities over the resolved shape trees. Nothing here decides a property."""
 import json
+import re
+
+CLOSURE_AT = re.compile(r"\{closure@[^{}\"]*\}")
 
 CHILD_KEYS = ("stmts", "expr", "init", "els", "e", "args", "recv", "l", "r", "cond", "then",
               "else", "body", "arms", "es", "fields", "base", "i", "fe", "iter", "guard", "params")
@@ -9,7 +12,11 @@ CHILD_KEYS = ("stmts", "expr", "init", "els", "e", "args", "recv", "l", "r", "co
 class Facts:
     def __init__(self, path):
         with open(path) as f:
-            raw = json.load(f)
+            text = f.read()
+        # closure type names carry their source position; positions are not part of any rule
+        text = CLOSURE_AT.sub("{closure}", text)
+        raw = json.loads(text)
+        del text
         self.raw = raw
         self.adts = {a["path"]: a for a in raw["items"]["adts"]}
         self.adt_by_name = {}
